@@ -2,16 +2,17 @@
 # tools/confirm_seed.sh <worktree> <patch.diff> <demo_test.go> <pkgdir> <run-regex> [go test flags]
 # Confirms a seeded change in a scratch worktree: suite passes with the change, demo fails with it and passes without.
 set -u
+tag=$(basename "$1")
 wt="$1"; patch="$2"; demo="$3"; pkg="$4"; run="$5"; shift 5
 export GOFLAGS=-mod=mod GOPROXY=off GOSUMDB=off GOTOOLCHAIN=local
 cd "$wt" || exit 2
 git checkout -q -- . && git clean -fdq
 git apply "$patch" || { echo "PATCH DOES NOT APPLY"; exit 2; }
 go build ./... || { echo "DOES NOT BUILD"; exit 2; }
-if go test -vet=off -count=1 ./... >/tmp/confirm.suite.log 2>&1; then echo "suite with change: PASS"; else echo "suite with change: FAIL"; tail -5 /tmp/confirm.suite.log; fi
+if go test -vet=off -count=1 ./... >/tmp/confirm.$tag.suite.log 2>&1; then echo "suite with change: PASS"; else echo "suite with change: FAIL"; tail -5 /tmp/confirm.$tag.suite.log; fi
 mkdir -p "$pkg"; cp "$demo" "$pkg/zz_seed_demo_test.go"
-if go test -vet=off -count=1 "$@" -run "$run" "./$pkg/" >/tmp/confirm.with.log 2>&1; then echo "demo with change: PASS (unexpected)"; else echo "demo with change: FAIL (expected)"; grep -m3 -- "--- FAIL\|DATA RACE\|panic" /tmp/confirm.with.log; fi
+if go test -vet=off -count=1 "$@" -run "$run" "./$pkg/" >/tmp/confirm.$tag.with.log 2>&1; then echo "demo with change: PASS (unexpected)"; else echo "demo with change: FAIL (expected)"; grep -m3 -- "--- FAIL\|DATA RACE\|panic" /tmp/confirm.$tag.with.log; fi
 git checkout -q -- .; mkdir -p "$pkg"; cp "$demo" "$pkg/zz_seed_demo_test.go"
-if go test -vet=off -count=1 "$@" -run "$run" "./$pkg/" >/tmp/confirm.without.log 2>&1; then echo "demo without change: PASS (expected)"; else echo "demo without change: FAIL (unexpected)"; tail -5 /tmp/confirm.without.log; fi
+if go test -vet=off -count=1 "$@" -run "$run" "./$pkg/" >/tmp/confirm.$tag.without.log 2>&1; then echo "demo without change: PASS (expected)"; else echo "demo without change: FAIL (unexpected)"; tail -5 /tmp/confirm.$tag.without.log; fi
 git clean -fdq
-rm -f /tmp/confirm.*.log
+rm -f /tmp/confirm.$tag.*.log
